@@ -535,7 +535,17 @@ def tolower_rule(ctx, rid):
     ctx.ob(rid, fn, fn.body, not bad and len(model) == 256, 'case folding loop', '; '.join(bad[:4]) or 'A..Z folded, the rest unchanged')
 
 
+def r11(ctx):
+    ctx.rule('C13.R11', 'a default that is looked up for a condition reaches the condition: in message.cpp every value fetched from a '
+             'map of defaults (iterator->second behind a find) and assigned to a local is read afterwards on some path - a store '
+             'nobody reads put the value into the wrong variable (the default circuit of the file has to become the circuit '
+             'of a condition without one, or the condition binds to a message of that name in another circuit)', minimum=3)
+    common.dead_store_rule(ctx, 'C13.R11', lambda f: f.relfile.startswith('src/lib/ebus/message.'),
+                           lambda f, rhs: f.key(rhs).endswith('.second') or '.second}' in f.key(rhs)[-12:], 3)
+
+
 def run(ctx):
+    r11(ctx)
     tolower_rule(ctx, 'C13.R10')
     r9(ctx)
     r1(ctx)
